@@ -427,7 +427,7 @@ type parsimPlan struct {
 func CheckC06(e *Env) (int, error) {
 	plan := parsimPlan{nGen: 36, inputs: 36, optsPer: 2, runs: 250000, chunk: 4000}
 	if e.Tier == "thorough" {
-		plan = parsimPlan{nGen: 220, inputs: 80, optsPer: 4, runs: 3000000, chunk: 25000}
+		plan = parsimPlan{nGen: 220, inputs: 80, optsPer: 4, runs: 2000000, chunk: 20000}
 	}
 	return parsimCheck(e, "C06", "c06", plan)
 }
@@ -436,7 +436,7 @@ func CheckC06(e *Env) (int, error) {
 func CheckC12(e *Env) (int, error) {
 	plan := parsimPlan{nGen: 36, inputs: 36, optsPer: 2, runs: 80000, chunk: 1500}
 	if e.Tier == "thorough" {
-		plan = parsimPlan{nGen: 220, inputs: 80, optsPer: 4, runs: 800000, chunk: 8000}
+		plan = parsimPlan{nGen: 220, inputs: 80, optsPer: 4, runs: 600000, chunk: 6000}
 	}
 	return parsimCheck(e, "C12", "c12", plan)
 }
@@ -445,7 +445,7 @@ func CheckC12(e *Env) (int, error) {
 func CheckC14(e *Env) (int, error) {
 	plan := parsimPlan{nGen: 24, inputs: 30, optsPer: 2, runs: 24000, raceRuns: 1600, chunk: 300, coldRuns: 160, stmtYields: true}
 	if e.Tier == "thorough" {
-		plan = parsimPlan{nGen: 120, inputs: 60, optsPer: 4, runs: 400000, raceRuns: 12000, chunk: 4000, coldRuns: 1600, stmtYields: true}
+		plan = parsimPlan{nGen: 120, inputs: 60, optsPer: 4, runs: 250000, raceRuns: 8000, chunk: 3000, coldRuns: 800, stmtYields: true}
 	}
 	return parsimCheck(e, "C14", "c14", plan)
 }
